@@ -12,7 +12,7 @@
 From Coq Require Import List ZArith NArith String Bool.
 Import ListNotations.
 From Verif Require Import Common.Base Model.Fmtp Model.Codec Model.HeaderExt Model.Section Model.CodecAssoc
-     Proofs.Codec Proofs.Section Proofs.ExtNeg Proofs.CodecHist Proofs.CodecAssoc.
+     Proofs.Codec Proofs.Section Proofs.ExtNeg Proofs.CodecHist Proofs.CodecPrefs Proofs.CodecAssoc.
 From Coq Require Import Lia.
 Open Scope string_scope.
 
@@ -69,6 +69,40 @@ Theorem c10_engine_lists_pt_unique : forall l c,
   NoDup (map c_pt l) -> NoDup (map c_pt (fst (add_codec l c))).
 Proof. exact add_codec_nodup. Qed.
 Print Assumptions c10_engine_lists_pt_unique.
+
+(* a transceiver created from the remote description: the preference list
+   setCodecPreferencesFromRemoteDescription builds never carries a payload type
+   twice (for every engine list with distinct payload types, every remote
+   section) -- as repaired; the loop used to remove the last fmtp-equivalent
+   engine codec instead of the matched one, and an offer listing one codec
+   under two payload types was answered "123 123" *)
+Theorem c10_pt_unique_from_remote_prefs : forall engine_codecs remote,
+  NoDup (map c_pt engine_codecs) ->
+  NoDup (map c_pt (set_prefs_from_remote engine_codecs remote)).
+Proof. exact set_prefs_from_remote_nodup. Qed.
+Print Assumptions c10_pt_unique_from_remote_prefs.
+
+(* ... so its section lists each payload type once (engine payload types non-zero) *)
+Theorem c10_pt_unique_from_remote : forall engine_codecs remote,
+  NoDup (map c_pt engine_codecs) -> (forall c, In c engine_codecs -> c_pt c <> 0%N) ->
+  NoDup (map c_pt (get_codecs engine_codecs (set_prefs_from_remote engine_codecs remote))).
+Proof. exact get_codecs_from_remote_nodup. Qed.
+Print Assumptions c10_pt_unique_from_remote.
+
+(* over histories, with the transceiver matching inside the step
+   (Model/CodecAssoc.v): for every registration, every history of local
+   additions and answered offers and every further offer, when an offered
+   section with mid m is of the same kind K m in every offer, no offered codec
+   has payload type 0 and SetCodecPreferences is given lists with distinct
+   non-zero payload types (or none), every section of the answer lists each
+   payload type once -- local transceivers and transceivers created from a
+   remote description, in this or an earlier exchange, alike *)
+Theorem c10_hist_pt_unique_partial : forall K video audio multi x os offer s' l,
+  Forall (mop_kp K) os -> mop_kp K (MExchange offer) ->
+  exchange (run_mops (new_mpc (new_engine video audio multi) x) os) offer = (s', Ok l) ->
+  Forall (fun sec => NoDup (sec_formats sec)) l.
+Proof. exact history_answer_pts. Qed.
+Print Assumptions c10_hist_pt_unique_partial.
 
 (* negotiated branch, under a guard on the remote description: when every
    extmap id it uses lies within 1..14 and a URI is never offered under two
@@ -140,3 +174,40 @@ Proof. exact w_good. Qed.
 Example c10_rtx_chain_repaired : exists l, w_chain = Ok l /\ forallb section_ok l = true /\
   map sec_formats l = [[96%N]].
 Proof. exact w_chain_ok. Qed.
+
+(* the history premises on non-trivial values: telephone-event offered under two
+   payload types, answered by a transceiver created from the offer; re-offered
+   with a second audio section that a local recvonly transceiver takes *)
+Definition ex10_te (pt : N) : codec := mkCodec "audio/telephone-event" 8000 0 "" [] pt.
+Definition ex10_os : list mop :=
+  [ MExchange [mkOsec KAudio AD.Sendrecv [ex10_te 123; ex10_te 124] [(3%Z, w_mid)]];
+    MAdd KAudio AD.Recvonly [] ].
+Definition ex10_offer : list osec :=
+  [ mkOsec KAudio AD.Sendrecv [ex10_te 123; ex10_te 124] [(3%Z, w_mid)];
+    mkOsec KAudio AD.Sendonly [ex10_te 123; ex10_te 124] [(3%Z, w_mid)] ].
+
+Example c10_example_history :
+  Forall (mop_kp (fun _ => KAudio)) ex10_os /\ mop_kp (fun _ => KAudio) (MExchange ex10_offer) /\
+  Forall (mop_kinds (fun _ => KAudio) [(3%Z, w_mid)]) ex10_os /\
+  mop_kinds (fun _ => KAudio) [(3%Z, w_mid)] (MExchange ex10_offer) /\
+  match exchange (run_mops (new_mpc (new_engine [] [ex10_te 101] true)
+                                    (registered [(w_mid, KAudio, [])])) ex10_os) ex10_offer with
+  | (_, Ok l) => map sec_formats l = [[124%N; 123%N]; [123%N; 124%N]] /\
+                 map l_exts l = [[(3%Z, w_mid)]; [(3%Z, w_mid)]]
+  | _ => False
+  end.
+Proof.
+  assert (Hk1 : offer_kinds (fun _ => KAudio) [mkOsec KAudio AD.Sendrecv [ex10_te 123; ex10_te 124] [(3%Z, w_mid)]]).
+  { intros m o H _. destruct m as [|m]; cbn in H; [inversion H; reflexivity|destruct m; discriminate]. }
+  assert (Hk2 : offer_kinds (fun _ => KAudio) ex10_offer).
+  { intros m o H _. destruct m as [|[|m]]; cbn in H; try (inversion H; reflexivity). destruct m; discriminate. }
+  assert (Hp : forall offer, (forall o, In o offer -> os_codecs o = [ex10_te 123; ex10_te 124]) -> offer_pts offer).
+  { intros offer Ho o c Hin Hc. rewrite (Ho o Hin) in Hc. destruct Hc as [<-|[<-|[]]]; discriminate. }
+  split; [|split; [|split; [|split]]].
+  - constructor; [split; [exact Hk1|apply Hp; intros o [<-|[]]; reflexivity]|].
+    constructor; [apply pts_ok_nil|constructor].
+  - split; [exact Hk2|apply Hp; intros o [<-|[<-|[]]]; reflexivity].
+  - constructor; [split; [exact Hk1|intros p Hin; exact Hin]|]. constructor; [exact I|constructor].
+  - split; [exact Hk2|]. intros p Hin. cbn in Hin. destruct Hin as [<-|[<-|[]]]; now left.
+  - vm_compute. split; reflexivity.
+Qed.
